@@ -108,11 +108,13 @@ def run(gaf_path, gfa=None, output=None, index=None, nodes=[], regions=[], forma
         if regions:
             assert nodes == []
             nodes = get_unstable(regions, ind)
-        offsets = ind[ind_dict[nodes[0]]]
-        for nd in nodes[1:]:
+        offsets = set()
+        for nd in nodes:
             # extracting all the lines that touches at least one of the nodes
-            offsets = list(set(offsets) | set(ind[ind_dict[nd]]))
-        offsets.sort()
+            # nodes without alignments are not part of the index and contribute nothing
+            if nd in ind_dict:
+                offsets |= set(ind[ind_dict[nd]])
+        offsets = sorted(offsets)
         if len(offsets) == 0:
             raise CommandLineError("No alignments found for the given nodes/regions")
         gaf = GAF(gaf_path)
